@@ -28,9 +28,16 @@ def run(ctx, model_ok):
     ctx.cov.setdefault("evaluations", ost["c12_cases"])
     ctx.cov.setdefault("distinct_nontrivial", ost["c12_cases"])
     ctx.cov.setdefault("samples", [ost])
-    ctx.cov["not_shown"] = ["homogeneity of the CylinderSegment kernel (not ported to the real carrier): rescaling oracle 1e-9..1e9 only (proved: Dipole, Sphere, segment, Cuboid, "
-                            "Triangle, Tetrahedron, Circle, the whole ported BHJM_magnet_cylinder with cel / cel0 as opaque functions, and the TriangularMesh inside test / "
-                            "bounding-box pre-filter / is_facet_inwards, tied by the trimesh-inside stream)",
+    ctx.cov["not_shown"] = ["CylinderSegment: the ported BHJM_cylinder_segment is proved unit-free for r2 != 0 (cylseg_scale_invariant, special functions opaque: the prologue divides by the "
+                            "outer radius); BHJM_cylinder_segment_internal's 360-degree branch only through the Cylinder theorem; rescaling oracle 1e-9..1e9 otherwise (proved: Dipole, Sphere, "
+                            "masked Polyline row, Cuboid wrapper, Triangle, Tetrahedron, Circle, the whole ported BHJM_magnet_cylinder with cel / cel0 as opaque functions, and the TriangularMesh "
+                            "inside test / bounding-box pre-filter / is_facet_inwards, tied by the trimesh-inside stream)",
+                            "degenerate inputs (zero-length edge, zero-area triangle, det = 0, d = 0, observer on a vertex or on the carrier line) are inside the scale theorems but there both sides "
+                            "are Lean's totalised values (x/0 = 0, log 0 = 0): no information",
+                            "proportionality to the excitation: Sphere here, other kernels in Props/C05 (kernel level; the wrappers' pol != 0 masks are not included); the sum over the segments "
+                            "of a vertices-form Polyline is not stated here",
+                            "TriangularMesh field: Props/C06 trimesh_batch_scale_invariant; mesh VALIDATION: check_selfintersecting is NOT unit invariant (absolute eps, float32; Props/C16 witness and "
+                            "known findings), check_open / check_disconnected are combinatorial; the full re-orientation is not stated here (only the seed test is_facet_inwards)",
                             "Cylinder: only the single-row path of `cel` (cel0) is modelled; scipy ellipk/ellipe modelled through cel0 (validated by the kern stream)",
                             "float loss of absolute offsets at extreme scales is outside exact real arithmetic"]
 
